@@ -203,7 +203,15 @@ def read(fh, cocos=1):
 
     # Read the first line
     header = fh.readline()
-    words = header.split()  # Split on whitespace
+    # The format ends the first line with three integers in 4-character fields (3i4),
+    # which have no spaces between them when nx or ny >= 1000. Use the fixed-width
+    # fields when the end of the line has that shape, otherwise split on whitespace.
+    tail = header.rstrip("\r\n")[-12:]
+    fixed = [tail[i : i + 4] for i in range(0, 12, 4)]
+    if len(tail) == 12 and all(w.lstrip(" ").isdigit() for w in fixed):
+        words = fixed
+    else:
+        words = header.split()  # Split on whitespace
     if len(words) < 3:
         raise ValueError("Expecting at least 3 numbers on first line")
 
